@@ -313,8 +313,8 @@ def _flat_on_iter(ctx, c):
             st.assume(_zb(sch.inst(ctx.i)))
 
 
-FLAT_FI = LoopSpec(lambda ctx: [], havoc_heap=_flat_havoc, on_iter=_flat_on_iter, name="flatten (fixed income): transact(-position)")
-FLAT_MV = LoopSpec(_flat_inv, havoc_heap=_flat_havoc, on_iter=_flat_on_iter, name="flatten: allocate(-value)")
+FLAT_FI = LoopSpec(lambda ctx: [], havoc_heap=_flat_havoc, on_iter=_flat_on_iter, name="flatten (fixed income): transact(-position)", mentions=["transact"])
+FLAT_MV = LoopSpec(_flat_inv, havoc_heap=_flat_havoc, on_iter=_flat_on_iter, name="flatten: allocate(-value)", mentions=["allocate"])
 
 
 def verify_flatten(ex, contract, timeout_ms=30000):
@@ -393,7 +393,7 @@ def _flat_pre_havoc(ctx):
 
 
 # loop 0: sub-strategies flatten their own children first (recursive use of flatten's contract: subtree + root.stale)
-FLAT_PRE = LoopSpec(lambda ctx: [], havoc_heap=lambda ctx: [], on_iter=_flat_on_iter, name="flatten sub-strategies first (no-op for one-level trees: proved untouched)")
+FLAT_PRE = LoopSpec(lambda ctx: [], havoc_heap=lambda ctx: [], on_iter=_flat_on_iter, name="flatten sub-strategies first (no-op for one-level trees: proved untouched)", mentions=["flatten"])
 LOOPS = {("bt.core.StrategyBase.flatten", 0): FLAT_PRE, ("bt.core.StrategyBase.flatten", 1): FLAT_FI, ("bt.core.StrategyBase.flatten", 2): FLAT_MV}
 
 
